@@ -65,12 +65,12 @@ fn src(e: &Expr, idents: &mut BTreeSet<String>) -> Value {
             json!({"t":"alt","xs":xs})
         }
         Expr::Opt(e) => json!({"t":"opt","e":src(e, idents)}),
-        Expr::Rep(e) => json!({"t":"rep","e":src(e, idents),"min":0,"max":-1}),
-        Expr::RepOnce(e) => json!({"t":"rep","e":src(e, idents),"min":1,"max":-1}),
-        Expr::RepExact(e, n) => json!({"t":"rep","e":src(e, idents),"min":n,"max":n}),
-        Expr::RepMin(e, n) => json!({"t":"rep","e":src(e, idents),"min":n,"max":-1}),
-        Expr::RepMax(e, m) => json!({"t":"rep","e":src(e, idents),"min":0,"max":m}),
-        Expr::RepMinMax(e, n, m) => json!({"t":"rep","e":src(e, idents),"min":n,"max":m}),
+        Expr::Rep(e) => json!({"t":"rep","k":"rep","e":src(e, idents),"min":0,"max":-1}),
+        Expr::RepOnce(e) => json!({"t":"rep","k":"reponce","e":src(e, idents),"min":1,"max":-1}),
+        Expr::RepExact(e, n) => json!({"t":"rep","k":"repexact","e":src(e, idents),"min":n,"max":n}),
+        Expr::RepMin(e, n) => json!({"t":"rep","k":"repmin","e":src(e, idents),"min":n,"max":-1}),
+        Expr::RepMax(e, m) => json!({"t":"rep","k":"repmax","e":src(e, idents),"min":0,"max":m}),
+        Expr::RepMinMax(e, n, m) => json!({"t":"rep","k":"repminmax","e":src(e, idents),"min":n,"max":m}),
         Expr::Skip(v) => json!({"t":"skipuntil","ns":v.iter().map(|s| cps(s)).collect::<Vec<_>>()}),
         Expr::Push(e) => json!({"t":"push","e":src(e, idents)}),
         #[allow(unreachable_patterns)]
@@ -115,7 +115,7 @@ fn opt(e: &OptimizedExpr, idents: &mut BTreeSet<String>) -> Value {
             json!({"t":"alt","xs":xs})
         }
         OptimizedExpr::Opt(e) => json!({"t":"opt","e":opt(e, idents)}),
-        OptimizedExpr::Rep(e) => json!({"t":"rep","e":opt(e, idents),"min":0,"max":-1}),
+        OptimizedExpr::Rep(e) => json!({"t":"rep","k":"rep","e":opt(e, idents),"min":0,"max":-1}),
         OptimizedExpr::Skip(v) => {
             json!({"t":"skipuntil","ns":v.iter().map(|s| cps(s)).collect::<Vec<_>>()})
         }
